@@ -29,6 +29,10 @@ enum Op {
     DropForce(u8),
     Mutate,
     DropOwner,
+    /// the owner is consumed by `Instrumented::from_parts((), owner).emit()`
+    EmitOwner,
+    /// a mutation made inside `Instrumented::instrument(owner, |m| ..)`, owner taken back with `into_parts`
+    InstrumentMutate,
 }
 
 struct World {
@@ -70,6 +74,8 @@ impl Model {
             }
             v.push(Op::Mutate);
             v.push(Op::DropOwner);
+            v.push(Op::EmitOwner);
+            v.push(Op::InstrumentMutate);
             v.push(Op::MkHandle); // converts the owner into a handle
         } else if self.handles > 0 && self.handles < max {
             v.push(Op::MkHandle);
@@ -101,8 +107,8 @@ impl Model {
                 self.forces -= 1;
                 self.force_dropped = true;
             }
-            Op::Mutate => self.mutations += 1,
-            Op::DropOwner => self.owner_alive = false,
+            Op::Mutate | Op::InstrumentMutate => self.mutations += 1,
+            Op::DropOwner | Op::EmitOwner => self.owner_alive = false,
         }
         self.settle();
     }
@@ -135,6 +141,12 @@ impl World {
             Op::DropForce(i) => drop(self.forces.remove(i as usize)),
             Op::Mutate => self.owner.as_mut().unwrap().a += 1,
             Op::DropOwner => drop(self.owner.take()),
+            Op::EmitOwner => metrique::instrument::Instrumented::from_parts((), self.owner.take().unwrap()).emit(),
+            Op::InstrumentMutate => {
+                let o = self.owner.take().unwrap();
+                let ((), o) = metrique::instrument::Instrumented::instrument(o, |m| m.a += 1).into_parts();
+                self.owner = Some(o);
+            }
         }
     }
 }
